@@ -377,6 +377,22 @@ def _rewritten(fn, clsname=None):
     return new
 
 
+def _holds_pattern(v, depth=0):
+    if isinstance(v, re.Pattern):
+        return True
+    if isinstance(v, (list, tuple)) and depth < 3:
+        return any(_holds_pattern(x, depth + 1) for x in v)
+    return False
+
+
+def _wrap_patterns(v):
+    if isinstance(v, re.Pattern):
+        return SymPattern(v)
+    if isinstance(v, (list, tuple)):
+        return type(v)(_wrap_patterns(x) for x in v)
+    return v
+
+
 def _lib_pointwise(fn):
     def wrapper(*a, **k):
         CVt = _cv().CV
@@ -478,6 +494,9 @@ def patched(*modules, extra=None):
                                     setc(v, ck, nv)
                 if isinstance(v, re.Pattern):
                     setg(d, k, SymPattern(v))
+                elif isinstance(v, (list, tuple)) and _holds_pattern(v):
+                    # e.g. a module-level tuple of precompiled patterns (or of (name, pattern) pairs)
+                    setg(d, k, _wrap_patterns(v))
                 elif isinstance(v, dict) and any(isinstance(x, re.Pattern) for x in v.values()):
                     # e.g. a module-level cache of compiled patterns
                     for dk, dv in list(v.items()):
@@ -487,6 +506,8 @@ def patched(*modules, extra=None):
                     for ck, cv_ in list(v.__dict__.items()):
                         if isinstance(cv_, re.Pattern):
                             setc(v, ck, SymPattern(cv_))
+                        elif isinstance(cv_, (list, tuple)) and _holds_pattern(cv_):
+                            setc(v, ck, _wrap_patterns(cv_))
         for (m, k), v in (extra or {}).items():
             if isinstance(m, type):
                 setc(m, k, v)
